@@ -87,7 +87,8 @@ class TolerantConsumer(Consumer):
 
 
 def validate(ctx, merged):
-    if merged['counters'].get('deviations_not_kept'):
+    # deviations beyond the cap were not judged: if none of the judged ones was rejected the run cannot conclude
+    if merged['counters'].get('deviations_not_kept') and not ctx.violations:
         raise common.MachineryError('too many deviating executions to validate (%d dropped)'
                                     % merged['counters']['deviations_not_kept'])
     for key, module in (('out', 'Outcome'), ('tree', 'TraceTree')):
